@@ -25,6 +25,9 @@ Correspondence (model executed by the Lean driver, `C19 <op>`):
                            closed-form objective of the counts (1e-8); fitted model minimising it over independent
                            PoissonGAM.fit candidates (1e-6); UBRE/auto: vs GAM.gridsearch on rates / weights (1e-8)
   predict                  predict(X, exposure) vs e * predict_mu(X) and vs the model                   (1e-12)
+  exposure.containers      the exposure as 1-D float64 / float32 / int array, list, tuple, (n,1) / (1,n) array, nested
+                           list: predict has shape (n,) and equals NumPy ravel(e) * predict_mu(X)       (1e-12);
+                           fit / loglikelihood / gridsearch equal those with the flat float64 vector     (1e-9)
   loglik                   loglikelihood(X, y, exposure, weights) vs scipy poisson.logpmf(y, mu*e).sum()
                            (no weights) and vs the model kernel (+ SciPy's normaliser)                  (1e-10)
 
@@ -1352,6 +1355,166 @@ def run_etw_exact(ctx, pygam, lits):
 
 
 # --------------------------------------------------------------------------------------------
+# containers of the exposure
+# --------------------------------------------------------------------------------------------
+# every container / shape in which PoissonGAM.fit accepts n exposures (it flattens them); a per-sample quantity given as a column
+# of a table, a row, a list of lists … is the same n exposures, at every entry point that takes them
+CONTAINERS = ['f64', 'f32', 'int', 'list', 'tuple', 'col', 'row', 'nested', 'f32col', 'intcol', 'listrow']
+
+
+def exposure_containers(e):
+    """{name: (container, flat)}: the exposures `e` in every container; `flat` = the float64 1-D vector of the values the
+    container holds (computed with NumPy: float32 / integer containers hold rounded values)"""
+    e = np.asarray(e, dtype=float)
+    e32 = e.astype('f')
+    ei = np.clip(np.round(e), 1, 2 ** 40).astype(np.int64)
+    out = {
+        'f64': (e.copy(), e),
+        'f32': (e32, e32.astype(float)),
+        'int': (ei, ei.astype(float)),
+        'list': ([float(v) for v in e], e),
+        'tuple': (tuple(float(v) for v in e), e),
+        'col': (e[:, None].copy(), e),
+        'row': (e[None, :].copy(), e),
+        'nested': ([[float(v)] for v in e], e),
+        'f32col': (e32[:, None].copy(), e32.astype(float)),
+        'intcol': (ei[:, None].copy(), ei.astype(float)),
+        'listrow': ([[float(v) for v in e]], e),
+    }
+    for k, (cont, flat) in out.items():
+        assert np.array_equal(np.asarray(cont, dtype=float).ravel(), flat), k
+    return out
+
+
+def run_containers(ctx, pygam, lits, idxs=None):
+    st = 'exposure.containers'
+    ctx.stream(st, 'exposure given to predict / fit / loglikelihood / gridsearch as 1-D float64 / float32 / int arrays, lists, tuples, '
+                   '(n,1) / (1,n) arrays, nested lists: predict has shape (n,) and equals NumPy flat(e) * predict_mu(X) (1e-12; 1e-6 when '
+                   'e is not float32-representable); the other entry points give the same model / value as with the flat float64 vector (1e-9)')
+    max_iter = 40 if ctx.tier == 'quick' else 100
+    ncase = 5 if ctx.tier == 'quick' else 22
+    kinds = ['nonrep', 'int', 'f32', 'dyadic', 'large', 'small', 'literal', 'twos']
+    idxs = range(ncase) if idxs is None else idxs
+    for i in idxs:
+        c = make_case(ctx.seed, st, i, ctx.tier, lits, force=dict(ek=kinds[i % len(kinds)], n=[24, 40, 60][i % 3], ns=6))
+        r = _subrng(ctx.seed, st, i, 'cont')
+        rs = np.random.RandomState(r.getrandbits(32))
+        n, n2 = c['n'], c['n2']
+        e2 = c['e2'] if c['e2'] is not None else rs.randint(1, 60, n2) / 10.0
+        yy = y_as(c)
+
+        def new_poisson():
+            terms, fi = build_terms(pygam, c['mix'], c['lam'], c['ns'])
+            return pygam.PoissonGAM(terms, tol=1e-10, max_iter=max_iter, fit_intercept=fi)
+
+        conts, conts2 = exposure_containers(c['e']), exposure_containers(e2)
+        try:
+            ref = {}
+            for name in ('f64', 'f32', 'int'):
+                ref[name] = new_poisson().fit(c['X'], yy, exposure=conts[name][1], weights=c['w'])
+            g = ref['f64']
+            rate = {'train': np.asarray(g.predict_mu(c['X']), dtype=float), 'new': np.asarray(g.predict_mu(c['X2']), dtype=float)}
+        except Exception as ex:  # noqa
+            ctx.count('containers: reference fit exception', type(ex).__name__)
+            continue
+        if not (np.all(np.isfinite(rate['train'])) and np.all(np.isfinite(rate['new']))):
+            ctx.count('containers: non-finite rate skipped')
+            continue
+        grid = [0.1, 10.0]
+        gs_names = [CONTAINERS[(3 + i) % len(CONTAINERS)], ['col', 'nested', 'row'][i % 3]]
+        gs_ref = {}
+        for name in CONTAINERS:
+            refname = {'f32': 'f32', 'f32col': 'f32', 'int': 'int', 'intcol': 'int'}.get(name, 'f64')
+            # ---- predict: e_i * rate_i, one value per sample
+            for which, X, cs in (('train', c['X'], conts), ('new', c['X2'], conts2)):
+                cont, flat = cs[name]
+                sig = case_sig(c, container=name, op='predict', which=which)
+                ctx.case(st, sig, nontrivial=name != 'f64')
+                ctx.count('containers: predict', name)
+                want = flat * rate[which]
+                tol = 1e-12 if _is_f32(flat) else 1e-6
+
+                def evp():
+                    try:
+                        got = np.asarray(g.predict(X, exposure=cont), dtype=float)
+                    except Exception as ex:  # noqa
+                        return dict(exception=type(ex).__name__, msg=str(ex)[:200])
+                    if got.shape != want.shape:
+                        return dict(shape=list(got.shape), exposure_shape=list(np.shape(cont)))
+                    d = float(np.max(np.abs(got - want) / np.maximum(np.abs(want), 1e-300))) if want.size else 0.0
+                    if not d <= 10 * tol:
+                        j = int(np.argmax(np.abs(got - want) / np.maximum(np.abs(want), 1e-300)))
+                        return dict(i=j, predict=float(got[j]), exposure=float(flat[j]), predict_mu=float(rate[which][j]), rel=d)
+                    return None
+                bad = evp() and evp()
+                if bad:
+                    ctx.fail(st, sig, case_replay(ctx.seed, c, container=name, op='predict', which=which), observed=bad,
+                             expected=dict(shape=list(want.shape), e_times_rate=want[:5].tolist()),
+                             oracle='predict(X, exposure=e) has one value per sample, numpy.ravel(e) * predict_mu(X), for every '
+                                    'container of n exposures that fit accepts')
+            # ---- loglikelihood: same value as with the flat float64 vector of the same values
+            cont2, flat2 = conts2[name]
+            sig = case_sig(c, container=name, op='loglik')
+            ctx.case(st, sig, nontrivial=name != 'f64')
+
+            def evl():
+                try:
+                    a = float(g.loglikelihood(c['X2'], c['y2'], exposure=cont2, weights=c['w2']))
+                    b = float(g.loglikelihood(c['X2'], c['y2'], exposure=flat2, weights=c['w2']))
+                except Exception as ex:  # noqa
+                    return dict(exception=type(ex).__name__, msg=str(ex)[:200])
+                return None if _maxrel([a], [b]) <= 1e-9 else dict(container=a, flat_float64=b)
+            bad = evl() and evl()
+            if bad:
+                ctx.fail(st, sig, case_replay(ctx.seed, c, container=name, op='loglik'), observed=bad, expected='the same number',
+                         oracle='loglikelihood(X, y, exposure=container) == loglikelihood(X, y, exposure=numpy.ravel(container) as float64)')
+            # ---- fit: same model
+            if name != 'f64':
+                cont, flat = conts[name]
+                sig = case_sig(c, container=name, op='fit')
+                ctx.case(st, sig, nontrivial=True)
+
+                def evf():
+                    try:
+                        b = new_poisson().fit(c['X'], yy, exposure=cont, weights=c['w'])
+                        d = model_compare(ref[refname], b, c['X'])
+                    except Exception as ex:  # noqa
+                        return dict(exception=type(ex).__name__, msg=str(ex)[:200])
+                    return None if d <= 1e-9 else dict(max_rel_diff=d)
+                bad = evf() and evf()
+                if bad:
+                    ctx.fail(st, sig, case_replay(ctx.seed, c, container=name, op='fit'), observed=bad, expected='identical models',
+                             oracle='fit(X, y, exposure=container) == fit(X, y, exposure=numpy.ravel(container) as float64)')
+            # ---- gridsearch: same model (two containers per case)
+            if name in gs_names:
+                cont, flat = conts[name]
+                sig = case_sig(c, container=name, op='gridsearch')
+                ctx.case(st, sig, nontrivial=True)
+
+                def evg():
+                    if refname not in gs_ref:
+                        try:
+                            gs_ref[refname] = new_poisson().gridsearch(c['X'], yy, exposure=conts[refname][1], weights=c['w'], lam=grid,
+                                                                       progress=False)
+                            gs_ref[refname].coef_
+                        except Exception as ex:  # noqa
+                            gs_ref[refname] = None
+                            ctx.count('containers: reference gridsearch exception', type(ex).__name__)
+                    if gs_ref[refname] is None:
+                        return None
+                    try:
+                        b = new_poisson().gridsearch(c['X'], yy, exposure=cont, weights=c['w'], lam=grid, progress=False)
+                        d = model_compare(gs_ref[refname], b, c['X'])
+                    except Exception as ex:  # noqa
+                        return dict(exception=type(ex).__name__, msg=str(ex)[:200])
+                    return None if d <= 1e-9 else dict(max_rel_diff=d)
+                bad = evg() and evg()
+                if bad:
+                    ctx.fail(st, sig, case_replay(ctx.seed, c, container=name, op='gridsearch'), observed=bad, expected='identical models',
+                             oracle='gridsearch(X, y, exposure=container) == gridsearch(X, y, exposure=numpy.ravel(container) as float64)')
+
+
+# --------------------------------------------------------------------------------------------
 def run(ctx):
     # pyGAM prints 'did not converge' on stdout; keep the check's stdout for the verdict lines
     with contextlib.redirect_stdout(io.StringIO()):
@@ -1380,6 +1543,7 @@ def _run(ctx):
     run_np_contracts(ctx, lits)
     run_dev_identity(ctx, pygam, lits)
     run_etw_exact(ctx, pygam, lits)
+    run_containers(ctx, pygam, lits)
     run_fit(ctx, pygam, lits)
     run_noexposure(ctx, pygam, lits)
     run_offset_glm(ctx, pygam, lits)
@@ -1408,5 +1572,7 @@ def _replay(ctx, rp):
         run_offset_glm(ctx, pygam, lits, idxs=[case['idx']])
     elif st == 'gridsearch' and 'idx' in case:
         run_gridsearch(ctx, pygam, lits, idxs=[case['idx']])
+    elif st == 'exposure.containers' and 'idx' in case:
+        run_containers(ctx, pygam, lits, idxs=[case['idx']])
     else:
         _run(ctx)
